@@ -36,7 +36,6 @@ import (
 //@   modifies nothing
 
 //@ func codecs.toFrameBodyReader [C11]
-//@   trusted
 //@   ensures typeis(source, *FrameBodyReader) ==> result1 == nil && result0 == as(source, *FrameBodyReader)
 //@   modifies nothing
 
